@@ -1,0 +1,185 @@
+//go:build verif
+
+package scalarDistribution
+
+// Contracts for the scalar distributions (C14): jet-level checks of the log-densities against the textbook
+// formula under the parametrisation named by the constructor, support handling, constructor validation and
+// the constructor-established invariants the log-density relies on.
+
+//@ propsdefault C14
+
+//@ func (*NormalDistribution).LogPdf
+//@   jetresult r
+//@   jetoperands x
+//@   jetvalueonly
+//@   jetrequires obj_Sigma > 0
+//@   jetspec 0 - 0.5*log(2*PI) - log(obj_Sigma) - (x - obj_Mu)*(x - obj_Mu)/(2*obj_Sigma*obj_Sigma)
+//@   jeterrors_when false
+
+//@ func NewNormalDistribution
+//@   jeterrors_when sigma <= 0
+//@   jetensures post_result0_Mu == mu && post_result0_Sigma == sigma && post_mu == mu && post_sigma == sigma
+
+//@ func (*ExponentialDistribution).LogPdf
+//@   jetresult r
+//@   jetoperands x
+//@   jetvalueonly
+//@   jetrequires dist_Lambda > 0 && dist_LambdaLog == log(dist_Lambda)
+//@   jetsupport x >= 0
+//@   jetspec log(dist_Lambda) - dist_Lambda*x
+//@   jeterrors_when false
+
+//@ func NewExponentialDistribution
+//@   jeterrors_when lambda <= 0
+//@   jetensures post_result0_Lambda == lambda && post_result0_LambdaLog == log(lambda) && post_lambda == lambda
+
+// --- Laplace(mu, sigma): -log(2 sigma) - |x - mu| / sigma
+//@ func (*LaplaceDistribution).LogPdf
+//@   jetresult r
+//@   jetoperands x
+//@   jetvalueonly
+//@   jetrequires dist_Sigma > 0 && dist_c2 == 2
+//@   jetspec 0 - log(2*dist_Sigma) - abs(x - dist_Mu)/dist_Sigma
+//@   jeterrors_when false
+//@ func NewLaplaceDistribution
+//@   jeterrors_when sigma <= 0
+//@   jetensures post_result0_Mu == mu && post_result0_Sigma == sigma && post_result0_c2 == 2
+
+// --- Pareto(lambda scale, kappa shape): log kappa + kappa log lambda - (kappa+1) log x on x >= lambda
+//@ func (*ParetoDistribution).LogPdf
+//@   jetresult r
+//@   jetoperands x
+//@   jetvalueonly
+//@   jetrequires dist_Lambda > 0 && dist_Kappa > 0 && dist_Kappa1p == dist_Kappa + 1 && dist_z == log(dist_Kappa) + dist_Kappa*log(dist_Lambda)
+//@   jetsupport x >= dist_Lambda
+//@   jetspec log(dist_Kappa) + dist_Kappa*log(dist_Lambda) - (dist_Kappa + 1)*log(x)
+//@   jeterrors_when false
+//@ func NewParetoDistribution
+//@   jeterrors_when lambda <= 0 || kappa <= 0
+//@   jetensures post_result0_Lambda == lambda && post_result0_Kappa == kappa && post_result0_Kappa1p == kappa + 1 && post_result0_z == log(kappa) + kappa*log(lambda)
+
+// --- Gamma(alpha shape, beta rate): alpha log beta - lgamma(alpha) + (alpha-1) log x - beta x on x > 0
+//@ func (*GammaDistribution).LogPdf
+//@   jetresult r
+//@   jetoperands x
+//@   jetvalueonly
+//@   jetrequires dist_Alpha > 0 && dist_Beta > 0 && dist_Omega == dist_Alpha - 1 && dist_Z == dist_Alpha*log(dist_Beta) - lgamma(dist_Alpha)
+//@   jetsupport x > 0
+//@   jetspec dist_Alpha*log(dist_Beta) - lgamma(dist_Alpha) + (dist_Alpha - 1)*log(x) - dist_Beta*x
+//@   jeterrors_when false
+//@ func NewGammaDistribution
+//@   jeterrors_when alpha <= 0 || beta <= 0
+//@   jetensures post_result0_Alpha == alpha && post_result0_Beta == beta && post_result0_Omega == alpha - 1 && post_result0_Z == alpha*log(beta) - lgamma(alpha)
+
+// --- Cauchy(mu, sigma): log(sigma/pi) - log((x-mu)^2 + sigma^2)
+//@ func (*CauchyDistribution).LogPdf
+//@   jetresult r
+//@   jetoperands x
+//@   jetvalueonly
+//@   jetrequires obj_Sigma > 0 && obj_z == log(obj_Sigma/PI) && obj_s2 == obj_Sigma*obj_Sigma
+//@   jetspec log(obj_Sigma/PI) - log((x - obj_Mu)*(x - obj_Mu) + obj_Sigma*obj_Sigma)
+//@   jeterrors_when false
+//@ func NewCauchyDistribution
+//@   jeterrors_when sigma <= 0
+//@   jetensures post_result0_Mu == mu && post_result0_Sigma == sigma && post_result0_z == log(sigma/PI) && post_result0_s2 == sigma*sigma
+
+// --- ChiSquared(k): -(k/2) log 2 - lgamma(k/2) + (k/2 - 1) log x - x/2 on x > 0
+//@ func (*ChiSquaredDistribution).LogPdf
+//@   jetresult r
+//@   jetoperands x
+//@   jetvalueonly
+//@   jetrequires dist_K > 0 && dist_C == 2 && dist_L == dist_K/2 && dist_E == dist_K/2 - 1 && dist_Z == (dist_K/2)*log(2) + lgamma(dist_K/2)
+//@   jetsupport x > 0
+//@   jetspec 0 - (dist_K/2)*log(2) - lgamma(dist_K/2) + (dist_K/2 - 1)*log(x) - x/2
+//@   jeterrors_when false
+//@ func NewChiSquaredDistribution
+//@   jeterrors_when k_ <= 0
+//@   jetensures post_result0_K == k_ && post_result0_C == 2 && post_result0_L == k_/2 && post_result0_E == k_/2 - 1 && post_result0_Z == (k_/2)*log(2) + lgamma(k_/2)
+
+// --- GeneralizedGamma(a, d, p): log p - d log a - lgamma(d/p) + (d-1) log x - (x/a)^p on x > 0
+//@ func (*GeneralizedGammaDistribution).LogPdf
+//@   jetresult r
+//@   jetoperands x
+//@   jetvalueonly
+//@   jetrequires dist_A > 0 && dist_D > 0 && dist_P > 0 && dist_dm1 == dist_D - 1 && dist_z == log(dist_P) - dist_D*log(dist_A) - lgamma(dist_D/dist_P)
+//@   jetsupport x > 0
+//@   jetspec log(dist_P) - dist_D*log(dist_A) - lgamma(dist_D/dist_P) + (dist_D - 1)*log(x) - pow(x/dist_A, dist_P)
+//@   jeterrors_when false
+//@ func NewGeneralizedGammaDistribution
+//@   jeterrors_when a <= 0 || d <= 0 || p <= 0
+//@   jetensures post_result0_A == a && post_result0_D == d && post_result0_P == p && post_result0_dm1 == d - 1 && post_result0_z == log(p) - d*log(a) - lgamma(d/p)
+
+// --- PowerLaw(alpha, xmin): log((alpha-1)/xmin) - alpha log(x/xmin) on x >= xmin; proper only for alpha > 1, xmin > 0
+//@ func (*PowerLawDistribution).LogPdf
+//@   jetresult r
+//@   jetoperands x
+//@   jetvalueonly
+//@   jetrequires dist_Alpha > 1 && dist_Xmin > 0 && dist_cz == log((dist_Alpha - 1)/dist_Xmin)
+//@   jetsupport x >= dist_Xmin
+//@   jetspec log((dist_Alpha - 1)/dist_Xmin) - dist_Alpha*log(x/dist_Xmin)
+//@   jeterrors_when false
+//@ func NewPowerLawDistribution
+//@   jeterrors_when alpha <= 1 || xmin <= 0
+//@   jetensures post_result0_Alpha == alpha && post_result0_Xmin == xmin && post_result0_cz == log((alpha - 1)/xmin)
+
+// --- GPareto(mu, sigma, xi), z = (x-mu)/sigma: -log sigma - (1/xi + 1) log(1 + xi z)  (xi != 0);  -log sigma - z (xi = 0)
+//@ func (*GParetoDistribution).LogPdf
+//@   jetresult r
+//@   jetoperands x
+//@   jetvalueonly
+//@   jetrequires dist_Sigma > 0 && dist_cs == log(dist_Sigma) && (dist_Xi != 0 ==> dist_cx2 == 0 - 1/dist_Xi - 1)
+//@   jetsupport x >= dist_Mu && (dist_Xi < 0 ==> x <= dist_Mu - dist_Sigma/dist_Xi)
+//@   jetspec ite(dist_Xi == 0, 0 - log(dist_Sigma) - (x - dist_Mu)/dist_Sigma, 0 - log(dist_Sigma) - (1/dist_Xi + 1)*log(1 + dist_Xi*(x - dist_Mu)/dist_Sigma))
+//@   jeterrors_when false
+//@ func NewGParetoDistribution
+//@   jeterrors_when sigma <= 0
+//@   jetensures post_result0_Mu == mu && post_result0_Sigma == sigma && post_result0_Xi == xi && post_result0_cs == log(sigma) && (xi != 0 ==> post_result0_cx2 == 0 - 1/xi - 1)
+
+// --- Poisson(lambda): k log lambda - lambda - lgamma(k+1) on integers k >= 0; non-integers are an error
+//@ func (*PoissonDistribution).LogPdf
+//@   jetresult r
+//@   jetoperands x
+//@   jetvalueonly
+//@   jetrequires dist_Lambda > 0
+//@   jetsupport x >= 0
+//@   jetspec x*log(dist_Lambda) - dist_Lambda - lgamma(x + 1)
+//@   jeterrors_when floor(x) != x
+//@ func NewPoissonDistribution
+//@   jeterrors_when lambda <= 0
+//@   jetensures post_result0_Lambda == lambda
+
+// --- Geometric(p): k log(1-p) + log p on integers k >= 0 (failures before the first success)
+//@ func (*GeometricDistribution).LogPdf
+//@   jetresult r
+//@   jetoperands x
+//@   jetvalueonly
+//@   jetrequires dist_p > 0 && dist_p <= 1 && dist_p1 == log(dist_p) && dist_p2 == log(1 - dist_p)
+//@   jetsupport x >= 0
+//@   jetspec x*log(1 - dist_p) + log(dist_p)
+//@   jeterrors_when floor(x) != x
+//@ func NewGeometricDistribution
+//@   jeterrors_when p <= 0 || p > 1
+//@   jetensures post_result0_p == p && post_result0_p1 == log(p) && post_result0_p2 == log(1 - p)
+
+// --- Binomial(theta, n): lgamma(n+1) - lgamma(k+1) - lgamma(n-k+1) + k log theta + (n-k) log(1-theta), integers k >= 0
+//@ func (*BinomialDistribution).LogPdf
+//@   jetresult r
+//@   jetoperands x
+//@   jetvalueonly
+//@   jetrequires dist_c1 == 1 && dist_np1 == dist_n + 1 && dist_z == lgamma(dist_n + 1)
+//@   jetsupport x >= 0 && floor(x) == x
+//@   jetspec lgamma(dist_n + 1) - lgamma(x + 1) - lgamma(dist_n - x + 1) + dist_Theta*x + dist_ct*(dist_n - x)
+//@   jeterrors_when false
+
+// --- NegativeBinomial(r, p): lgamma(r+k) - lgamma(k+1) - lgamma(r) + r log(1-p) + k log p, integers k >= 0
+//@ func (*NegativeBinomialDistribution).LogPdf
+//@   jetresult r
+//@   jetoperands x
+//@   jetvalueonly
+//@   jetrequires dist_R > 0 && dist_c1 == 1
+//@   jetsupport x >= 0 && floor(x) == x
+//@   jetspec lgamma(dist_R + x) - lgamma(x + 1) + x*dist_p + dist_z
+//@   jeterrors_when false
+//@ func NewNegativeBinomialDistribution
+//@   jeterrors_when r <= 0 || p < 0 || p > 1
+//@   jetensures post_result0_R == r && post_result0_P == p && post_result0_p == log(p) && post_result0_c1 == 1 && post_result0_z == r*log(1 - p) - lgamma(r)
